@@ -9,6 +9,7 @@ import (
 	"fmt"
 	"net/http"
 	"os"
+	"runtime"
 	"sort"
 	"strings"
 	"time"
@@ -133,7 +134,33 @@ func init() {
 				case out := <-done:
 					return out
 				case <-time.After(time.Duration(num(in, "timeoutMs", 20000)) * time.Millisecond):
-					return "hang"
+					// say where it spins: the package of the innermost non-runtime frame of the busiest-looking goroutine
+					buf := make([]byte, 1<<20)
+					nb := runtime.Stack(buf, true)
+					where := "unknown"
+					for _, g := range strings.Split(string(buf[:nb]), "\n\n") {
+						if !strings.Contains(g, "main.docOp") {
+							continue
+						}
+						for _, l := range strings.Split(g, "\n")[1:] {
+							// the innermost frame outside the standard library (module paths start with a domain name)
+							first := strings.SplitN(l, "/", 2)[0]
+							if strings.HasPrefix(l, "\t") || !strings.Contains(first, ".") || !strings.Contains(l, "/") {
+								continue
+							}
+							fn := strings.SplitN(l, "(", 2)[0]
+							if i := strings.LastIndex(fn, "/"); i >= 0 {
+								// keep "module/path/pkg", drop the function
+								if j := strings.Index(fn[i:], "."); j >= 0 {
+									fn = fn[:i+j]
+								}
+							}
+							where = fn
+							break
+						}
+						break
+					}
+					return "hang in " + where
 				}
 			}
 			return "harness-error bad-op"
